@@ -16,6 +16,8 @@ pub struct MemSocket {
     /// (destination, datagram, went out?)
     pub outbox: Arc<Mutex<Vec<(SocketAddr, Vec<u8>, bool)>>>,
     pub fail: Arc<Mutex<HashSet<SocketAddr>>>,
+    /// also record every send in the event trace of the node (node engine)
+    pub trace_sends: Arc<Mutex<bool>>,
 }
 
 impl MemSocket {
@@ -26,6 +28,7 @@ impl MemSocket {
             notify: Arc::new(Notify::new()),
             outbox: Default::default(),
             fail: Default::default(),
+            trace_sends: Default::default(),
         }
     }
     pub fn deliver(&self, bytes: Vec<u8>, from: SocketAddr) {
@@ -41,7 +44,12 @@ impl MemSocket {
 impl SocketTrait for MemSocket {
     async fn send_to(&self, buf: &[u8], target: &SocketAddr) -> io::Result<()> {
         let ok = !self.fail.lock().unwrap().contains(target);
-        self.outbox.lock().unwrap().push((*target, buf.to_vec(), ok));
+        if *self.trace_sends.lock().unwrap() {
+            let local = self.local;
+            btdht::verif::trace(|| format!("{local} W send {target} {} {}", if ok { "ok" } else { "fail" }, crate::util::hex(buf)));
+        } else {
+            self.outbox.lock().unwrap().push((*target, buf.to_vec(), ok));
+        }
         if ok {
             Ok(())
         } else {
